@@ -82,6 +82,9 @@ def make_points(dim, rv, kind, seed):
         spread = 0.6 if kind != "far-orth" else np.array([0.6, 0.6, 45.0, 0.6, 0.6, -80.0])[:, None]
         p = p + _orth_part(vec, rng.uniform(-1.0, 1.0, (n, dim)) * spread)
     w = rng.uniform(0.1, 1.0, n)
+    # a masked point (weight exactly zero) and a negative weight: the local grid holds every IMAGE inside the sphere whatever
+    # its weight (seeded change C11-L dropped the points of zero weight)
+    w[3], w[5] = 0.0, -0.25
     return (p[:, 0] if dim == 1 else p), w
 
 
